@@ -3,7 +3,7 @@ Helper lemmas for C14: the two loops of the collection as maps, the decompositio
 labels of invalid/empty programs, and the independence of a record from the other files.
 -/
 import Paroxy.Spec.Collect
-import Paroxy.Proofs.MakeDb
+import Paroxy.Proofs.MakeDbResolved
 namespace Paroxy.Collect
 open Paroxy Paroxy.DB
 
@@ -11,84 +11,8 @@ variable {Tree : Type} {X : Ext Tree}
 
 /-! ## The two loops -/
 
-theorem cleanAll_ok {files : List (Name × Name)} {r : List (Name × Name)}
-    (h : cleanAll X files = .ok r) :
-    CleanOk X files ∧ r = files.map fun f => (f.1, srcOf X f) := by
-  induction files generalizing r with
-  | nil =>
-    simp only [cleanAll, Except.ok.injEq] at h
-    subst h
-    exact ⟨fun f hf => absurd hf (by simp), rfl⟩
-  | cons f t ih =>
-    obtain ⟨p, raw⟩ := f
-    unfold cleanAll at h
-    cases hc : X.clean raw with
-    | error e => rw [hc] at h; cases h
-    | ok s =>
-      rw [hc] at h
-      simp only at h
-      cases ht : cleanAll X t with
-      | error e => rw [ht] at h; cases h
-      | ok r' =>
-        rw [ht] at h
-        simp only [Except.ok.injEq] at h
-        obtain ⟨hok, hr⟩ := ih ht
-        subst h
-        refine ⟨?_, ?_⟩
-        · intro g hg
-          rcases List.mem_cons.mp hg with e | hg'
-          · rw [e]; exact ⟨s, hc⟩
-          · exact hok g hg'
-        · simp only [List.map_cons, srcOf, cleanD, hc, hr]
-
-theorem cleanAll_of_ok {files : List (Name × Name)} (h : CleanOk X files) :
-    cleanAll X files = .ok (files.map fun f => (f.1, srcOf X f)) := by
-  induction files with
-  | nil => rfl
-  | cons f t ih =>
-    obtain ⟨p, raw⟩ := f
-    obtain ⟨s, hs⟩ := h (p, raw) List.mem_cons_self
-    have ht := ih (fun g hg => h g (List.mem_cons_of_mem _ hg))
-    unfold cleanAll
-    simp only at hs
-    rw [hs]
-    simp only
-    rw [ht]
-    simp only [List.map_cons, srcOf, cleanD, hs]
-
-theorem cleanAll_error {files : List (Name × Name)} {e : Exc} (h : cleanAll X files = .error e) :
-    ∃ f ∈ files, X.clean f.2 = .error e := by
-  induction files with
-  | nil => cases h
-  | cons f t ih =>
-    obtain ⟨p, raw⟩ := f
-    unfold cleanAll at h
-    cases hc : X.clean raw with
-    | error e' =>
-      rw [hc] at h
-      simp only [Except.error.injEq] at h
-      subst h
-      exact ⟨(p, raw), List.mem_cons_self, hc⟩
-    | ok s =>
-      rw [hc] at h
-      simp only at h
-      cases ht : cleanAll X t with
-      | error e' =>
-        rw [ht] at h
-        simp only [Except.error.injEq] at h
-        subst h
-        obtain ⟨g, hg, hge⟩ := ih ht
-        exact ⟨g, List.mem_cons_of_mem _ hg, hge⟩
-      | ok r' => rw [ht] at h; cases h
-
-/-- A raising `clean` on any file aborts the whole loop. -/
-theorem cleanAll_aborts {files : List (Name × Name)} {f : Name × Name} {e : Exc}
-    (hf : f ∈ files) (he : X.clean f.2 = .error e) : ∃ e', cleanAll X files = .error e' := by
-  cases h : cleanAll X files with
-  | error e' => exact ⟨e', rfl⟩
-  | ok r =>
-    obtain ⟨s, hs⟩ := (cleanAll_ok h).1 f hf
-    rw [he] at hs; cases hs
+theorem cleanAll_eq (files : List (Name × Name)) :
+    cleanAll X files = files.map fun f => (f.1, srcOf X f) := rfl
 
 def ParseOk (X : Ext Tree) (srcs : List (Name × Name)) : Prop :=
   ∀ f ∈ srcs, ∃ ls, parseProgram X f.2 = .ok ls
@@ -162,70 +86,42 @@ theorem parseProgram_invalid {src : Name} {e : Exc} (h : X.parse src = .error e)
   unfold parseProgram; rw [h]; simp [hc]
 
 theorem parseProgram_empty {src : Name} {t : Tree} (h : X.parse src = .ok t)
-    (he : X.isEmpty t = true) : parseProgram X src = .ok [emptyLabel] := by
+    (he : X.isEmpty t = true) : parseProgram X src = .ok [emptyLabel src] := by
   unfold parseProgram; rw [h]; simp [he]
 
 /-! ## Decomposition of `collect` -/
 
 theorem collect_ok {toTaxa : Name → List Label → List Taxon} {files : List (Name × Name)} {db : Db}
     (h : collect X toTaxa files = .ok db) :
-    CleanOk X files ∧ ParseOk X (files.map fun f => (f.1, srcOf X f)) ∧
+    ParseOk X (files.map fun f => (f.1, srcOf X f)) ∧
       makeDb toTaxa (progsOf X files) = .ok db := by
   unfold collect at h
-  cases hc : cleanAll X files with
-  | error e => rw [hc] at h; cases h
-  | ok srcs =>
-    rw [hc] at h
+  rw [cleanAll_eq] at h
+  cases hp : parseAll X (files.map fun f => (f.1, srcOf X f)) with
+  | error e => rw [hp] at h; cases h
+  | ok progs =>
+    rw [hp] at h
     simp only at h
-    obtain ⟨hok, hs⟩ := cleanAll_ok hc
-    cases hp : parseAll X srcs with
-    | error e => rw [hp] at h; cases h
-    | ok progs =>
-      rw [hp] at h
-      simp only at h
-      obtain ⟨hpok, hr⟩ := parseAll_ok hp
-      cases hm : makeDb toTaxa progs with
-      | error e => rw [hm] at h; cases e; cases h
-      | ok db' =>
-        rw [hm] at h
-        simp only [Except.ok.injEq] at h
-        subst h
-        rw [hs] at hpok hr
-        rw [map_progOfSrc] at hr
-        rw [hr] at hm
-        exact ⟨hok, hpok, hm⟩
+    obtain ⟨hpok, hr⟩ := parseAll_ok hp
+    cases hm : makeDb toTaxa progs with
+    | error e => rw [hm] at h; cases e; cases h
+    | ok db' =>
+      rw [hm] at h
+      simp only [Except.ok.injEq] at h
+      subst h
+      rw [map_progOfSrc] at hr
+      rw [hr] at hm
+      exact ⟨hpok, hm⟩
 
 theorem collect_of {toTaxa : Name → List Label → List Taxon} {files : List (Name × Name)} {db : Db}
-    (hc : CleanOk X files) (hp : ParseOk X (files.map fun f => (f.1, srcOf X f)))
+    (hp : ParseOk X (files.map fun f => (f.1, srcOf X f)))
     (hm : makeDb toTaxa (progsOf X files) = .ok db) : collect X toTaxa files = .ok db := by
   unfold collect
-  rw [cleanAll_of_ok hc]
-  simp only
-  rw [parseAll_of_ok hp]
+  rw [cleanAll_eq, parseAll_of_ok hp]
   simp only
   rw [map_progOfSrc, hm]
 
-/-- A raising `clean` on any file aborts `collect`: no database at all. -/
-theorem collect_aborts {toTaxa : Name → List Label → List Taxon} {files : List (Name × Name)}
-    {f : Name × Name} {e : Exc} (hf : f ∈ files) (he : X.clean f.2 = .error e) :
-    ∃ e', collect X toTaxa files = .error e' := by
-  obtain ⟨e', h⟩ := cleanAll_aborts hf he
-  exact ⟨e', by unfold collect; rw [h]⟩
-
 /-! ## Labels of invalid and empty programs are not touched by the relabelling -/
-
-theorem dropPrefix?_eq {p s r : Name} (h : dropPrefix? p s = some r) : s = p ++ r := by
-  induction p generalizing s with
-  | nil => simp only [dropPrefix?, Option.some.injEq] at h; simp [h]
-  | cons a t ih =>
-    cases s with
-    | nil => simp [dropPrefix?] at h
-    | cons c cs =>
-      unfold dropPrefix? at h
-      split at h
-      · rename_i hac
-        rw [hac, ih h]; rfl
-      · cases h
 
 theorem importAt?_colon {s g : Name} (h : importAt? s = some g) : cColon ∈ s := by
   unfold importAt? at h
@@ -321,17 +217,17 @@ theorem preparedSpans_single (s : Span3) : preparedSpans [s] = [Span3.poor s] :=
 
 /-! ## A record does not depend on the other files -/
 
-/-- `g`'s labels name no module whose dotted path is `b`'s. -/
+/-- `g`'s labels name no module whose path is `b`. -/
 def NotImporting (X : Ext Tree) (g : Name × Name) (b : Name) : Prop :=
   ∀ l ∈ labelsD X (srcOf X g), ∀ m, searchImport? l.name = some m →
-    m ++ sPy ≠ replaceChar cSlash cDot b
+    replaceChar cDot cSlash m ++ sPy ≠ b
 
 theorem mem_internalPaths {paths : List Name} {x : Name} :
-    x ∈ internalPaths paths ↔ (∃ p ∈ paths, replaceChar cSlash cDot p = x) ∨ x = sPy := by
+    x ∈ internalPaths paths ↔ x ∈ paths ∨ x = sPy := by
   simp [internalPaths]
 
 theorem relabelName_filter {paths : List Name} {b n : Name}
-    (h : ∀ m, searchImport? n = some m → m ++ sPy ≠ replaceChar cSlash cDot b) :
+    (h : ∀ m, searchImport? n = some m → replaceChar cDot cSlash m ++ sPy ≠ b) :
     relabelName (internalPaths (paths.filter fun p => decide (p ≠ b))) n =
       relabelName (internalPaths paths) n := by
   unfold relabelName
@@ -340,21 +236,19 @@ theorem relabelName_filter {paths : List Name} {b n : Name}
   | some m =>
     simp only
     have hne := h m hs
-    have : (m ++ sPy ∈ internalPaths (paths.filter fun p => decide (p ≠ b))) ↔
-        (m ++ sPy ∈ internalPaths paths) := by
+    have : (replaceChar cDot cSlash m ++ sPy ∈ internalPaths (paths.filter fun p => decide (p ≠ b))) ↔
+        (replaceChar cDot cSlash m ++ sPy ∈ internalPaths paths) := by
       rw [mem_internalPaths, mem_internalPaths]
       constructor
-      · rintro (⟨p, hp, he⟩ | he)
-        · exact Or.inl ⟨p, (List.mem_filter.mp hp).1, he⟩
+      · rintro (hp | he)
+        · exact Or.inl (List.mem_filter.mp hp).1
         · exact Or.inr he
-      · rintro (⟨p, hp, he⟩ | he)
-        · refine Or.inl ⟨p, List.mem_filter.mpr ⟨hp, ?_⟩, he⟩
+      · rintro (hp | he)
+        · refine Or.inl (List.mem_filter.mpr ⟨hp, ?_⟩)
           simp only [ne_eq, decide_not, Bool.not_eq_eq_eq_not, Bool.not_true, decide_eq_false_iff_not]
-          intro hpb
-          rw [hpb] at he
-          exact hne he.symm
+          exact hne
         · exact Or.inr he
-    by_cases hm : m ++ sPy ∈ internalPaths paths
+    by_cases hm : replaceChar cDot cSlash m ++ sPy ∈ internalPaths paths
     · rw [if_pos hm, if_pos (this.mpr hm)]
     · rw [if_neg hm, if_neg (fun h' => hm (this.mp h'))]
 
